@@ -161,11 +161,19 @@ impl Report {
         let mut n_new = 0u64;
         let mut n_machinery = 0u64;
         let replay_dir = root.join("replays").join(&self.id);
+        // the directory describes this run only
+        if let Ok(rd) = std::fs::read_dir(&replay_dir) {
+            for e in rd.flatten() {
+                if e.path().extension().map(|x| x == "json").unwrap_or(false) {
+                    let _ = std::fs::remove_file(e.path());
+                }
+            }
+        }
         for (sig, (v, count)) in &self.violations {
             let k = known
                 .iter()
                 .find(|k| k.property == self.id && k.status == "open" && sig_matches(&k.signature, sig));
-            let is_machinery = sig.split(':').nth(1) == Some("machinery");
+            let is_machinery = sig.split(':').skip(1).any(|c| c == "machinery");
             if is_machinery {
                 // a failure of the harness or its environment is never a verdict about the property
                 eprintln!("MACHINERY: {} {} ({} case(s)): {}", self.id, sig, count, v.what);
